@@ -13,6 +13,8 @@ Definition K_FIXED := 0.
 Definition K_DYNAMIC := 1.
 Definition K_UNLIMITED := 2.
 
+Definition stiff_code (s : stiff) : Z := match s with Fixed => 0 | Dynamic => 1 | Unlimited => 2 end.
+
 Record pcm := mk_pcm {
   pm_size : Z;        (* member.byte_size *)
   pm_align : Z;       (* member.alignment *)
